@@ -2,6 +2,10 @@
 # Regenerates /verif/MANIFEST.json from the table below (single source of truth for the interface).
 import json
 CLAIMED = {
+ "C09": dict(level="exploration", design="DESIGN.md §4.3",
+   technique="deterministic simulation of a store (put/read/sync/restart) with injected save failures and refusing sinks; step-by-step refinement against a map model, durability and prefix checks after every successful save",
+   text="Seeded operation histories over {create, update of base objects (direct and compressed) and of earlier references, promise, fulfil, read, save, failing save (unfulfilled promise, stream still in the source file, /dev/full, missing directory), dirty restart} on corpus and generated base files (classic/stream xref, object streams, junk before the header, caches on/off), always closed by replace-offender + fulfil + save + reload. After every step: read-your-writes through raw and typed paths; after every successful save: previous bytes are a prefix, every written reference (passed and handed) resolves to the model's value in a fresh reload, sampled untouched objects and stream data unchanged. Fault-free and fault batches counted separately. Sampling, not proof.",
+   note="Values restricted to the serializer's round-trip-safe subset (validated per value); update targets exclude objects the document needs to open; file system is real apart from the refusing sinks."),
  "C12": dict(level="exploration", design="DESIGN.md §4.2",
    technique="deterministic simulation of call histories with cache-eviction fault injection; refinement check of the cached document against the uncached single-call reference model",
    text="Histories of read calls (typed loads incl. wrong types, raw resolves, stream data, raw and decoded image data, page look-ups, lazy loads; resolver reuse/renewal) on a document with real SyncCache caches in three cache modes, with eviction faults between and inside calls; each call's answer must equal the answer of that call alone on a fresh uncached document. Complete enumeration of ordered pairs (quick) / triples (thorough) of call kinds per sampled object, plus seeded random histories; fault-free and fault batches counted separately.",
